@@ -75,11 +75,23 @@ Walk(T, r, pool, k, acc) ==
                    ELSE IF eff.r = "free" /\ st.res.outcome = "ok" THEN Entry(st.res.form, st.res.vars, st.res.den)
                    ELSE Failed
        IN Walk(T, r, Append(pool, next), k + 1, acc /\ PrintT(<<"V", r.case, k, st.act, v>>))
+(* End state of a session (records with `final`): every pool entry is observed once more; the pool is append-only and its   *)
+(* entries are immutable values (Exmex: AppendOnly), so the second observation must equal the one made when the entry was created. *)
+FinalVerdict(r, q) ==
+  LET first == IF q <= Len(r.seeds) THEN r.seeds[q] ELSE r.steps[q - Len(r.seeds)].res
+      last  == r.final[q]
+  IN IF first.outcome # "ok" THEN "ok"
+     ELSE IF last.outcome # "ok" THEN "bad:entry-changed-" \o last.outcome
+     ELSE IF last.vars # first.vars THEN "bad:entry-changed-vars"
+     ELSE IF last.den # first.den THEN "bad:entry-changed-value"
+     ELSE IF last.text # first.text THEN "bad:entry-changed-text"
+     ELSE "ok"
 Session(r) ==
   LET T == TabOf(r)
       seeds == [q \in 1..Len(r.seeds) |-> SeedEntry(T, r.seeds[q])]
   IN /\ \A q \in 1..Len(r.seeds) : PrintT(<<"V", r.case, 0, "seed", SeedVerdict(T, r.seeds[q], seeds[q])>>)
      /\ Walk(T, r, seeds, 1, TRUE)
+     /\ ("final" \in DOMAIN r => \A q \in 1..Len(r.final) : PrintT(<<"V", r.case, q, "final", FinalVerdict(r, q)>>))
 Verdicts == i <= Len(Rec) => Session(Rec[i])
 AllJudged == TLCGet("stats").diameter = Len(Rec)
 =============================================================================
